@@ -151,7 +151,17 @@ theorem within_step {E : Name → Path → Prop} {s : St} (h : Within E s) (o : 
       by_cases hkt : k = t
       · subst hkt; simp only [if_true] at hk; exact h.rcd k p hk
       · simp only [hkt, if_false] at hk; exact h.rcd k p hk
-    | resetDep t => exact within_resetDep h t
+    | resetDep t =>
+      simp only [resetDepKeep]
+      split
+      · have h' := within_resetDep h t
+        refine ⟨h'.defs, ?_⟩
+        intro k p hk
+        simp only [markIgn] at hk
+        by_cases hkt : k = t
+        · subst hkt; simp only [if_true] at hk; exact h'.rcd k p hk
+        · simp only [hkt, if_false] at hk; exact h'.rcd k p hk
+      · exact within_resetDep h t
     | peek t =>
       simp only
       split
@@ -161,10 +171,12 @@ theorem within_step {E : Name → Path → Prop} {s : St} (h : Within E s) (o : 
     | info t =>
       simp only [info]
       split
-      · exact within_crashed h
+      · exact h
       · split
-        · exact within_erase h t
-        · exact h
+        · exact within_crashed h
+        · split
+          · exact within_erase h t
+          · exact h
 
 theorem within_istep {E : Name → Path → Prop} {s : St} (h : Within E s) (o : IOp) (ho : IOp.respects E o) :
     Within E (istep s o) := by
